@@ -1,1 +1,413 @@
-fn main() {}
+//! f80mon - event recorder and x87 state monitor for C18 (f80 arithmetic correctly rounded, comparisons follow
+//! IEEE order). The real operators run natively (Miri cannot execute inline assembly, valgrind emulates x87 with
+//! 64-bit doubles); every call appends one event - operation, operand bytes, result bytes or relation bits - to a
+//! log that `oracle/f80_oracle.py` replays with exact rational arithmetic. This binary itself judges only the x87
+//! state: around every library call the tag word must say "all registers empty" and the control word must be
+//! unchanged (the library's asm blocks declare no x87 clobbers, so a missing pop would otherwise stay unnoticed
+//! until the eighth call).
+//!
+//!   f80mon --events <file> [--tier ..] [--seed ..] [--out result.json]
+//!   f80mon --case "<op> <a f64 bits hex> <b f64 bits hex>"     (replay one boundary-pair event, prints it)
+
+use common::{catch, lib, Engine, Json, Report, Rng};
+use rlib_f80::f80;
+use std::cmp::Ordering;
+use std::fmt::Write as _;
+
+fn bytes_of(x: f80) -> [u8; 10] {
+    // f80 is a 10-byte array padded to 16; the field is private, so read it through a pointer
+    let mut out = [0u8; 10];
+    unsafe {
+        std::ptr::copy_nonoverlapping(&x as *const f80 as *const u8, out.as_mut_ptr(), 10);
+    }
+    out
+}
+
+fn hex80(x: f80) -> String {
+    let b = bytes_of(x);
+    let mut s = String::with_capacity(20);
+    for i in (0..10).rev() {
+        let _ = write!(s, "{:02x}", b[i]);
+    }
+    s
+}
+
+/// x87 environment: (control word, status word, tag word)
+fn x87_env() -> (u16, u16, u16) {
+    let mut env = [0u8; 28];
+    unsafe {
+        // fnstenv masks all exceptions after storing, fldenv restores the stored control word
+        core::arch::asm!("fnstenv [{0}]", "fldenv [{0}]", in(reg) env.as_mut_ptr(), options(nostack));
+    }
+    (u16::from_le_bytes([env[0], env[1]]), u16::from_le_bytes([env[4], env[5]]), u16::from_le_bytes([env[8], env[9]]))
+}
+
+struct Rec {
+    out: String,
+    events: u64,
+    cw0: u16,
+    state_violations: Vec<(String, u16, u16)>,
+    state_checks: u64,
+}
+
+impl Rec {
+    fn check_state(&mut self, what: &str) {
+        let (cw, _sw, tag) = x87_env();
+        self.state_checks += 1;
+        if (cw != self.cw0 || tag != 0xFFFF) && self.state_violations.len() < 20 {
+            self.state_violations.push((what.to_string(), cw, tag));
+        }
+    }
+    fn ev(&mut self, line: String) {
+        self.out.push_str(&line);
+        self.out.push('\n');
+        self.events += 1;
+    }
+
+    fn cvt(&mut self, v: f64) -> f80 {
+        let r = lib!(f80::from(v));
+        self.check_state("from_f64");
+        self.ev(format!("cvt {:016x} {}", v.to_bits(), hex80(r)));
+        r
+    }
+    fn back(&mut self, a: f80) -> f64 {
+        let r: f64 = lib!(f64::from(a));
+        self.check_state("to_f64");
+        self.ev(format!("back {} {:016x}", hex80(a), r.to_bits()));
+        r
+    }
+    fn bin(&mut self, op: &str, a: f80, b: f80) -> f80 {
+        let r = match op {
+            "add" => lib!(a + b),
+            "sub" => lib!(a - b),
+            "mul" => lib!(a * b),
+            "div" => lib!(a / b),
+            "add=" => {
+                let mut t = a;
+                lib!(t += b);
+                t
+            }
+            "sub=" => {
+                let mut t = a;
+                lib!(t -= b);
+                t
+            }
+            "mul=" => {
+                let mut t = a;
+                lib!(t *= b);
+                t
+            }
+            "div=" => {
+                let mut t = a;
+                lib!(t /= b);
+                t
+            }
+            "min" => lib!(a.min(b)),
+            "max" => lib!(a.max(b)),
+            _ => unreachable!(),
+        };
+        self.check_state(op);
+        self.ev(format!("{} {} {} {}", op.trim_end_matches('='), hex80(a), hex80(b), hex80(r)));
+        r
+    }
+    fn un(&mut self, op: &str, a: f80) -> f80 {
+        let r = match op {
+            "neg" => lib!(-a),
+            "abs" => lib!(a.abs()),
+            _ => unreachable!(),
+        };
+        self.check_state(op);
+        self.ev(format!("{} {} {}", op, hex80(a), hex80(r)));
+        r
+    }
+    fn rel(&mut self, a: f80, b: f80) {
+        let lt = lib!(a < b);
+        self.check_state("lt");
+        let le = lib!(a <= b);
+        self.check_state("le");
+        let gt = lib!(a > b);
+        self.check_state("gt");
+        let ge = lib!(a >= b);
+        self.check_state("ge");
+        let eq = lib!(a == b);
+        self.check_state("eq");
+        let ne = lib!(a != b);
+        self.check_state("ne");
+        let pc = match lib!(a.partial_cmp(&b)) {
+            Some(Ordering::Less) => 'L',
+            Some(Ordering::Equal) => 'E',
+            Some(Ordering::Greater) => 'G',
+            None => 'N',
+        };
+        self.check_state("partial_cmp");
+        let f = |x: bool| if x { '1' } else { '0' };
+        self.ev(format!("rel {} {} {}{}{}{}{}{}{}", hex80(a), hex80(b), f(lt), f(le), f(gt), f(ge), f(eq), f(ne), pc));
+    }
+    fn all_ops(&mut self, a: f80, b: f80, assign_forms: bool) -> [f80; 4] {
+        let r = [self.bin("add", a, b), self.bin("sub", a, b), self.bin("mul", a, b), self.bin("div", a, b)];
+        if assign_forms {
+            self.bin("add=", a, b);
+            self.bin("sub=", a, b);
+            self.bin("mul=", a, b);
+            self.bin("div=", a, b);
+        }
+        self.bin("min", a, b);
+        self.bin("max", a, b);
+        self.rel(a, b);
+        r
+    }
+}
+
+/// boundary set of f64 bit patterns
+fn boundary_set() -> Vec<f64> {
+    let mut v: Vec<u64> = Vec::new();
+    let mut push = |b: u64| {
+        v.push(b);
+        v.push(b | (1 << 63));
+    };
+    push(0); // +-0
+    push(1); // min subnormal
+    push(2);
+    push(0x000F_FFFF_FFFF_FFFF); // max subnormal
+    push(0x0008_0000_0000_0000);
+    push(0x0010_0000_0000_0000); // min normal
+    push(0x0010_0000_0000_0001);
+    push(0x7FEF_FFFF_FFFF_FFFF); // max finite
+    push(0x7FEF_FFFF_FFFF_FFFE);
+    push(0x7FF0_0000_0000_0000); // inf
+    push(0x7FF8_0000_0000_0000); // quiet NaN
+    for &x in &[1.0f64, 2.0, 3.0, 0.5, 1.5, 10.0, 0.1, 1.0 / 3.0, 2.0 / 3.0, 0.75, 1e-5, 123456789.0, 1e16, 1e100, 1e-100, 1e300, 1e-300, 6.02214076e23, std::f64::consts::PI, std::f64::consts::E] {
+        push(x.to_bits());
+    }
+    // powers of two and both neighbours
+    for &e in &[-1074i32, -1060, -1023, -1022, -1021, -600, -64, -53, -52, -1, 0, 1, 52, 53, 54, 63, 64, 65, 600, 1022, 1023] {
+        let b = if e < -1022 { 1u64 << (e + 1074) } else { ((e + 1023) as u64) << 52 };
+        push(b);
+        if b > 1 {
+            push(b - 1);
+        }
+        push(b + 1);
+    }
+    // long carry chains and 2^53 +- 1
+    push(0x3FFF_FFFF_FFFF_FFFF);
+    push(0x3FEF_FFFF_FFFF_FFFF);
+    push(0x400F_FFFF_FFFF_FFFF);
+    push(0x4340_0000_0000_0000); // 2^53
+    push(0x433F_FFFF_FFFF_FFFF); // 2^53 - 1
+    push(0x4340_0000_0000_0001); // 2^53 + 2
+    push(0x3FF0_0000_0000_0001); // 1 + ulp
+    push(0x3FF5_5555_5555_5555);
+    push(0x3FFA_AAAA_AAAA_AAAB);
+    push(0x3FF0_0000_FFFF_FFFF);
+    push(0x3FF8_0000_0000_0001);
+    v.sort();
+    v.dedup();
+    v.into_iter().map(f64::from_bits).collect()
+}
+
+/// exact power of two as f64 (powi with a large negative exponent goes through an overflowing reciprocal)
+fn p2(k: i32) -> f64 {
+    if k >= -1022 {
+        f64::from_bits(((k + 1023) as u64) << 52)
+    } else {
+        f64::from_bits(1u64 << (k + 1074))
+    }
+}
+
+fn random_f64(rng: &mut Rng) -> f64 {
+    match rng.below(8) {
+        0 => f64::from_bits(rng.next_u64()),
+        1 => f64::from_bits(rng.next_u64() & 0x800F_FFFF_FFFF_FFFF), // subnormals
+        2 => {
+            // near 1 with random mantissa
+            f64::from_bits(0x3FF0_0000_0000_0000 | (rng.next_u64() >> 12))
+        }
+        3 => {
+            // odd 53-bit significands (products need all 64 bits and more)
+            let m = (rng.next_u64() >> 12) | 1;
+            let e = rng.range_i64(-60, 60);
+            (m as f64 + 4503599627370496.0) * 2f64.powi(e as i32)
+        }
+        4 => rng.range_i64(-1000, 1000) as f64,
+        5 => {
+            let e = rng.range_i64(-1070, 1020);
+            let m = 1.0 + rng.f64_unit();
+            let v = m * 2f64.powi((e / 2) as i32) * 2f64.powi((e - e / 2) as i32);
+            if rng.chance(1, 2) {
+                -v
+            } else {
+                v
+            }
+        }
+        _ => f64::from_bits(rng.next_u64() & 0xBFFF_FFFF_FFFF_FFFF | 0x2000_0000_0000_0000),
+    }
+}
+
+fn main() {
+    let eng = Engine::start("f80mon");
+    let a = &eng.args;
+    let mut report = Report::new();
+    let (cw0, _sw0, tag0) = x87_env();
+    report.extra("x87_control_word_at_start", format!("{:#06x}", cw0));
+    report.extra("x87_tag_word_at_start", format!("{:#06x}", tag0));
+    let mut rec = Rec { out: String::new(), events: 0, cw0, state_violations: Vec::new(), state_checks: 0 };
+    if tag0 != 0xFFFF {
+        report.inconclusive(format!("x87 stack not empty before the first library call (tag word {:#06x})", tag0));
+    }
+    if (cw0 >> 8) & 3 != 3 || (cw0 >> 10) & 3 != 0 {
+        report.inconclusive(format!("x87 control word {:#06x}: precision control is not extended or rounding is not to-nearest; the oracle assumes both", cw0));
+    }
+
+    if let Some(c) = a.opt("case") {
+        // "<a f64 bits hex> <b f64 bits hex>"
+        let p: Vec<&str> = c.split_whitespace().collect();
+        let x = f64::from_bits(u64::from_str_radix(p[0], 16).unwrap());
+        let y = f64::from_bits(u64::from_str_radix(p[1], 16).unwrap());
+        let (fa, fb) = (rec.cvt(x), rec.cvt(y));
+        rec.all_ops(fa, fb, true);
+        rec.un("neg", fa);
+        rec.un("abs", fa);
+        rec.back(fa);
+        eprintln!("operands {:?} {:?}", x, y);
+        eprint!("{}", rec.out);
+        if let Some(p) = a.opt("events") {
+            std::fs::write(p, &rec.out).unwrap();
+        }
+        report.count("evaluations", rec.events);
+        eng.finish(report);
+    }
+
+    let thorough = a.thorough();
+    let seed = a.seed();
+    let r = catch(|| {
+        let set = boundary_set();
+        // (1) all ordered pairs of the boundary set x all operators and relations
+        let conv: Vec<f80> = set.iter().map(|&v| rec.cvt(v)).collect();
+        for &x in &conv {
+            rec.un("neg", x);
+            rec.un("abs", x);
+            rec.back(x);
+        }
+        for (i, &x) in conv.iter().enumerate() {
+            for (j, &y) in conv.iter().enumerate() {
+                let res = rec.all_ops(x, y, (i + j) % 8 == 0);
+                // results need up to 64 significand bits: convert them back (rounding to f64) and reuse some as operands
+                if (i * 31 + j) % 5 == 0 {
+                    for &rr in &res {
+                        rec.back(rr);
+                    }
+                }
+            }
+        }
+        let boundary_events = rec.events;
+        // (2) random bit patterns
+        let mut rng = Rng::new(common::mix(&[seed, 18]));
+        let nrandom = if thorough { 300_000 } else { 25_000 };
+        for _ in 0..nrandom {
+            let (x, y) = (random_f64(&mut rng), random_f64(&mut rng));
+            let (fx, fy) = (rec.cvt(x), rec.cvt(y));
+            let res = rec.all_ops(fx, fy, rng.chance(1, 8));
+            rec.back(res[rng.usize_below(4)]);
+            if rng.chance(1, 4) {
+                rec.un("neg", fx);
+                rec.un("abs", fy);
+            }
+        }
+        // (3) chains of depth <= 4 whose intermediates need all 64 significand bits
+        let nchains = if thorough { 200_000 } else { 20_000 };
+        for _ in 0..nchains {
+            let mut cur = rec.cvt(random_f64(&mut rng));
+            let depth = rng.range_usize(2, 4);
+            let mut prev = cur;
+            for _ in 0..depth {
+                let other = if rng.chance(1, 3) { prev } else { rec.cvt(random_f64(&mut rng)) };
+                let op = *rng.pick(&["add", "sub", "mul", "div", "add=", "mul="]);
+                let (l, r) = if rng.chance(1, 2) { (cur, other) } else { (other, cur) };
+                prev = cur;
+                cur = rec.bin(op, l, r);
+                if rng.chance(1, 3) {
+                    rec.rel(cur, prev);
+                }
+                if rng.chance(1, 4) {
+                    rec.bin(if rng.chance(1, 2) { "min" } else { "max" }, cur, prev);
+                    rec.un("abs", cur);
+                }
+            }
+            rec.back(cur);
+            // 1 + 2^-63 style sums: 1 + tiny
+            if rng.chance(1, 10) {
+                let one = rec.cvt(1.0);
+                let tiny = rec.cvt(2f64.powi(-(rng.range_i64(52, 66) as i32)));
+                let s = rec.bin("add", one, tiny);
+                let s2 = rec.bin("add", s, tiny);
+                rec.rel(s, one);
+                rec.rel(s2, s);
+                rec.back(s2);
+            }
+        }
+        // (4) deep product / quotient chains that reach the 80-bit underflow and overflow zones (f64 operands alone
+        // never get near 2^-16382 or 2^16383): 15 factors of about 2^-1022 (or 2^1022), then one that lands the result
+        // in the subnormal band / next to the overflow threshold, then neighbours by multiplying with 2^k
+        let ndeep = if thorough { 4000 } else { 400 };
+        for it in 0..ndeep {
+            let down = it % 2 == 0;
+            let base = if down { 2f64.powi(-1022) } else { 2f64.powi(1022) };
+            let mut cur = rec.cvt(base * (1.0 + rng.f64_unit() * 0.9));
+            for _ in 0..14 {
+                let f = rec.cvt(base * (1.0 + rng.f64_unit() * 0.9));
+                cur = rec.bin("mul", cur, f);
+            }
+            // cur ~ 2^(-15330) (resp. 2^15330 .. 2^15345); walk into the band
+            let target_steps = if down { rng.range_i64(1040, 1140) } else { rng.range_i64(1030, 1070) };
+            let step = rec.cvt(p2(if down { -(target_steps.min(1070) as i32) } else { target_steps.min(1023) as i32 }) * if down { 1.0 } else { 1.0 + rng.f64_unit() * 0.5 });
+            cur = rec.bin("mul", cur, step);
+            let mut hist = vec![cur];
+            for _ in 0..6 {
+                let k = rng.range_i64(-40, 40) as i32;
+                let f = rec.cvt(2f64.powi(k) * (1.0 + rng.f64_unit()));
+                cur = rec.bin(if rng.chance(1, 3) { "div" } else { "mul" }, cur, f);
+                hist.push(cur);
+                if rng.chance(1, 2) {
+                    let other = hist[rng.usize_below(hist.len())];
+                    rec.bin(*rng.pick(&["add", "sub", "min", "max"]), cur, other);
+                    rec.rel(cur, other);
+                    rec.un("neg", cur);
+                    rec.un("abs", cur);
+                }
+                rec.back(cur);
+            }
+        }
+        boundary_events
+    });
+    match r {
+        Ok(be) => {
+            report.count("boundary_pair_events", be);
+        }
+        Err(p) => {
+            if p.in_lib {
+                report.violation("panic", Json::obj().set("panic", p.msg.as_str()).set("at", format!("{}:{}", p.file, p.line)), vec![]);
+            } else {
+                report.inconclusive(format!("harness panic at {}:{}: {}", p.file, p.line, p.msg));
+            }
+        }
+    }
+    report.count("events_recorded", rec.events);
+    report.count("x87_state_checks", rec.state_checks);
+    for (what, cw, tag) in rec.state_violations.iter() {
+        report.violation(
+            format!("x87_state:{}", what),
+            Json::obj()
+                .set("what", "after a library call the x87 register stack is not empty or the control word changed")
+                .set("after", what.as_str())
+                .set("control_word", format!("{:#06x}", cw))
+                .set("tag_word", format!("{:#06x}", tag)),
+            vec![],
+        );
+    }
+    if let Some(p) = a.opt("events") {
+        std::fs::write(&p, &rec.out).expect("write event log");
+        report.extra("event_log", p);
+    }
+    report.extra("boundary_set_size", boundary_set().len());
+    eng.finish(report);
+}
